@@ -1,20 +1,21 @@
 #!/bin/sh
-# usage: tools/adopt_seed.sh C05  -> confirm /tmp/wt-C05/seeded, copy to /verif/seeded/C05/, append confirmation to meta.json
-id=$1
+# usage: tools/adopt_seed.sh <worktree-of-the-seed-agent> <tag> <property>
+# confirm, then copy to /verif/seeded/<tag>/ with the confirmation appended to meta.json
+srcw=$1; tag=$2; prop=$3
 cd /verif || exit 2
-tools/confirm_seed.sh $id > /tmp/adopt-$id.out 2>&1
-mkdir -p seeded/$id
-cp /tmp/wt-$id/seeded/patch.diff seeded/$id/
-for f in test_demo.py demo.py meta.json; do [ -f /tmp/wt-$id/seeded/$f ] && cp /tmp/wt-$id/seeded/$f seeded/$id/; done
-python3 - "$id" <<'PY'
+tools/confirm_seed.sh $srcw $tag > /tmp/adopt-$tag.out 2>&1
+mkdir -p seeded/$tag
+cp $srcw/seeded/patch.diff seeded/$tag/
+for f in test_demo.py demo.py meta.json; do [ -f $srcw/seeded/$f ] && cp $srcw/seeded/$f seeded/$tag/; done
+python3 - "$tag" "$prop" <<'PY'
 import json,sys
-sid=sys.argv[1]
-p=f"/verif/seeded/{sid}/meta.json"
+tag,prop=sys.argv[1],sys.argv[2]
+p=f"/verif/seeded/{tag}/meta.json"
 try: m=json.load(open(p))
-except Exception: m={"property":sid}
-m["property"]=sid
-log=open(f"/tmp/confirm-{sid}.log").read()
+except Exception: m={}
+m["property"]=prop
+log=open(f"/tmp/confirm-{tag}.log").read()
 m["confirmed_by_main_session"]={"what_i_ran":"tools/confirm_seed.sh: fresh git worktree of /repo HEAD; demo without the change; git apply patch.diff; demo with the change; whole test suite with the change in an isolated network namespace (unshare -n, lo up, multicast route)","log":log[-1500:]}
 json.dump(m,open(p,"w"),indent=1)
 PY
-tail -12 /tmp/adopt-$id.out
+tail -12 /tmp/adopt-$tag.out
